@@ -736,8 +736,14 @@ def hist_tokens():
             dict(label='exp150two', claims={"prefix": ["zz", "bk"], "exp": T0 + 150})]
 
 
-def hist_token_str(t):
-    return make_token(ES256, t['claims'], 'B' * (t.get('siglen', 86) - 1) + 'A')
+def hist_claims(case, t, attempt=0):
+    """Every history has token strings of its own (claim `jti`), so that nothing a process-wide layer may have kept
+    from an earlier history can bear on this one and a replay of the history alone behaves the same."""
+    return dict(t['claims'], jti=case.get('nonce', 0) + 1000000 * attempt)
+
+
+def hist_token_str(case, t, attempt=0):
+    return make_token(ES256, hist_claims(case, t, attempt), 'B' * (t.get('siglen', 86) - 1) + 'A')
 
 
 def hist_token_feats(t):
@@ -773,7 +779,7 @@ def hist_model_case(case):
     return [93, [wire_cfg(case['cfg']), toks, uses]]
 
 
-def impl_hist(case, mout, read_timeout):
+def impl_hist(case, mout, read_timeout, attempt=0):
     """All uses of the history in this process, the clock of katdal.chunkstore_s3 set before each.
     Per use: (class, request kinds, log, reason codes | None, token string expected in the Authorization header)."""
     import katdal.chunkstore_s3 as s3mod
@@ -781,7 +787,7 @@ def impl_hist(case, mout, read_timeout):
     from katdal.datasources import DataSourceNotFound, TelstateDataSource
     fake, pls = env()
     fake.max_wait = read_timeout + 2.0
-    strs = [hist_token_str(t) for t in case['tokens']]
+    strs = [hist_token_str(case, t, attempt) for t in case['tokens']]   # a re-run gets strings of its own
     real = s3mod.time
     if isinstance(real, _Clock):
         real = real._real
@@ -805,7 +811,7 @@ def impl_hist(case, mout, read_timeout):
             try:
                 if u['entry'] == 'decode':
                     claims = s3mod.decode_jwt(tokstr)
-                    cls = OK if isinstance(claims, dict) and claims == case['tokens'][u['tok']]['claims'] else 7
+                    cls = OK if isinstance(claims, dict) and claims == hist_claims(case, case['tokens'][u['tok']], attempt) else 7
                 elif u['entry'] == 'rdb':
                     src = TelstateDataSource.from_url(
                         base + '/bkt/x.rdb?capture_block_id=1234567890&stream_name=sdp_l0&token=' + tokstr,
@@ -861,7 +867,7 @@ def compare_hist(ctx, case, mout, read_timeout=0.5, confirm=True):
     """Per use: verdict and number of requests vs the stateless spec (property), vs the model (tie); the Authorization
     header of every request that was sent; the reason given for a rejection vs the model's decision (tie).  Only the
     first disagreeing use is reported; the replay keeps the history up to it."""
-    res = impl_hist(case, mout, read_timeout)
+    res = impl_hist(case, mout, read_timeout, attempt=0 if confirm else 1)
     stale = bool(_state.get('stale'))
     first = {}
     for k, (icls, ireq, log, reason, tokstr, made) in enumerate(res):
@@ -996,6 +1002,8 @@ def hist_cases(ctx):
             uses.append(u)
         cfg = list(cfg1) if rng.random() < 0.7 else [10, 1, rng.choice((0, 1, 2)), rng.choice((0, 1, 2)), G]
         cases.append(dict(kind='tokhist', cfg=cfg, tokens=toks, uses=finish(uses)))
+    for n, c in enumerate(cases):
+        c['nonce'] = n + 1
     return cases
 
 
